@@ -216,7 +216,8 @@ func newWorld(target int64) *world {
 	// every validator: external accounts on both chains, keep-alive, relayer fees
 	c.mustBlock(c.tpl("extinfo"), c.tpl("keepalive"), c.tpl("fee"))
 	// standing objects the templates refer to: a job, a user contract, a factory denom, a light node license
-	c.mustBlock(c.tpl("createjob"), c.tpl("uploaduser"), c.tpl("tfcreate"), c.tpl("lnlicense"))
+	// (the transfer is batched by the end blocker of height 50; the batch waits for gas estimates from then on)
+	c.mustBlock(c.tpl("createjob"), c.tpl("uploaduser"), c.tpl("tfcreate"), c.tpl("lnlicense"), c.tpl("send"))
 	must(e.RunTo(target))
 	w.hash = hex.EncodeToString(e.AppHash())
 	w.height = e.Height
